@@ -135,6 +135,11 @@ func (hd *HeaderDirectives) StripRegularConditionals(header http.Header) {
 	hd.IfNoneMatch.SyncRemove(header)
 	hd.IfMatch.SyncRemove(header)
 
+	// Values that did not parse are not "present" above, but must not reach the origin either
+	for _, name := range []string{"If-Modified-Since", "If-Unmodified-Since", "If-None-Match", "If-Match"} {
+		delete(header, name)
+	}
+
 	// We need to keep If-Range for Range requests
 }
 
